@@ -446,18 +446,56 @@ impl Parser {
     }
 }
 
+/// Verification hook: canonical, spacing-preserving rendering of a token stream
+/// (`i:name`, `p:<char code>:A|J`, `l:<hex of literal text>`, `g<delim>( ... )`).
+#[cfg(feature = "verif_hooks")]
+pub fn canonical_tokens(stream: TokenStream) -> String {
+    use proc_macro2::{Delimiter, Spacing};
+    let mut out = Vec::new();
+    for tt in stream {
+        match tt {
+            TokenTree::Ident(i) => out.push(format!("i:{i}")),
+            TokenTree::Punct(p) => out.push(format!(
+                "p:{}:{}",
+                p.as_char() as u32,
+                if p.spacing() == Spacing::Alone { "A" } else { "J" }
+            )),
+            TokenTree::Literal(l) => {
+                let t = l.to_string();
+                let mut h = String::new();
+                for b in t.as_bytes() {
+                    h.push_str(&format!("{b:02x}"));
+                }
+                out.push(format!("l:{h}"));
+            }
+            TokenTree::Group(g) => {
+                let d = match g.delimiter() {
+                    Delimiter::Parenthesis => 0,
+                    Delimiter::Brace => 1,
+                    Delimiter::Bracket => 2,
+                    Delimiter::None => 3,
+                };
+                out.push(format!("g{d}( {} )", canonical_tokens(g.stream())));
+            }
+        }
+    }
+    out.join(" ")
+}
+
 /// Verification hook: run the attribute tokenizer and describe each item.
 #[cfg(feature = "verif_hooks")]
 pub fn nested_debug(stream: TokenStream) -> Vec<String> {
     AttributeParser::new(stream)
         .map(|n| match n {
-            Nested::Unnamed(ts) => format!("Unnamed[{ts}]"),
-            Nested::Unexpected(ts) => format!("Unexpected[{ts}]"),
-            Nested::Named(name, NestedValue::Assign(ts)) => format!("Named[{name}]Assign[{ts}]"),
-            Nested::Named(name, NestedValue::Literal(l)) => format!("Named[{name}]Literal[{l}]"),
-            Nested::Named(name, NestedValue::Group(ts)) => format!("Named[{name}]Group[{ts}]"),
+            Nested::Unnamed(ts) => format!("U[ {} ]", canonical_tokens(ts)),
+            Nested::Unexpected(ts) => format!("X[ {} ]", canonical_tokens(ts)),
+            Nested::Named(name, NestedValue::Assign(ts)) => format!("N[{name}]A[ {} ]", canonical_tokens(ts)),
+            Nested::Named(name, NestedValue::Literal(l)) => {
+                format!("N[{name}]L[ {} ]", canonical_tokens(TokenStream::from(TokenTree::Literal(l))))
+            }
+            Nested::Named(name, NestedValue::Group(ts)) => format!("N[{name}]G[ {} ]", canonical_tokens(ts)),
             Nested::Named(name, NestedValue::KeywordAssign(k, ts)) => {
-                format!("Named[{name}]KeywordAssign[{k}][{ts}]")
+                format!("N[{name}]K[{k}][ {} ]", canonical_tokens(ts))
             }
         })
         .collect()
